@@ -85,12 +85,10 @@ class NatGen(libgen.Gen):
         nested_cls = None
         if "nested" in todo and ns is None:
             outer = super().ident("Cls")
-            self.used.discard(outer)
 
             def mk():
                 nonlocal nested_cls
                 nested_cls = self.plain_class(ns=outer)
-            self.used.add(outer)
             nested_lines = self.capture(mk)
             self.next_cls_name = outer
         cls = super().gen_class(bases=bases, ns=ns)
@@ -255,50 +253,11 @@ class NatGen(libgen.Gen):
             members, shape = self.overload_members("defaults")
         name = self.ident("nov_")
         kind = "free" if free else r.choice(["method", "method", "static"])
+        # all members of one set share constness (const / non-const pairs are a feature of their own)
+        const = kind == "method" and r.random() < 0.3
         for ps in members:
-            f = self.emit(None if free else cls, kind, name, ps, const=(kind == "method" and r.random() < 0.3), ind=ind,
-                          feature="ovset:" + shape)
+            f = self.emit(None if free else cls, kind, name, ps, const=const, ind=ind, feature="ovset:" + shape)
             f["overload_set"] = name
-            if kind == "method" and f["const"]:
-                # keep all members of one set at the same constness (const pairs are a feature of their own)
-                pass
-        # all members of a method set share constness
-        if kind == "method":
-            fs = [m for m in cls["methods"] if m.get("overload_set") == name]
-            c0 = fs[0]["const"]
-            if any(m["const"] != c0 for m in fs):
-                self.reconst(cls, fs, c0)
-
-    def reconst(self, cls, fs, const):
-        """re-declare members of an overload set with one constness (header and definition lines are patched)"""
-        for f in fs:
-            if f["const"] == const:
-                continue
-            sig_h = f"{f['name']}({self.sig(f)})"
-            sig_c = f"{cls['qname']}::{f['name']}({self.sig(f, False)})"
-            for lines, sg in ((self.h, sig_h), (self.cx, sig_c)):
-                for i in range(len(lines) - 1, -1, -1):
-                    if sg in lines[i]:
-                        if const:
-                            lines[i] = lines[i].replace(sg, sg + " const") if sg + " const" not in lines[i] else lines[i]
-                        else:
-                            lines[i] = lines[i].replace(sg + " const", sg)
-                        break
-            # the body's state update depends on constness: patch it too
-            j = len(self.cx) - 1
-            while sig_c not in self.cx[j]:
-                j -= 1
-            k = j
-            upd = f"  st_{cls['name']} = vf::mix(st_{cls['name']}, {f['eid']}ull);"
-            while self.cx[k] != "}":
-                k += 1
-            body = self.cx[j:k]
-            if const and upd in body:
-                del self.cx[j + body.index(upd)]
-            elif not const and upd not in body:
-                at = j + next(i for i, l in enumerate(body) if "vf_h = vf::mix(vf_h, st_" in l) + 1
-                self.cx.insert(at, upd)
-            f["const"] = const
 
     def x_ovset2(self, cls, ind):
         self.x_ovset(cls, ind)
@@ -367,7 +326,6 @@ class NatGen(libgen.Gen):
                 continue
             have.add((self.catkey(t),))
             ps = [P(f"c0_{r.randrange(100)}", t)]
-            f = dict(explicit=explicit)
             # gen_function reads fn.get('explicit') only after building fn, so emit the declaration by hand
             fn = self.gen_function(cls, "ctor", name=name, ret=T("void"), params=ps, indent=ind)
             if explicit:
@@ -425,7 +383,7 @@ class NatGen(libgen.Gen):
             s["feature"] = "setitem"
             cls["methods"].append(s)
         cls["item_array"] = dict(name=arr, size=4, seq=seq)
-        cls.setdefault("raw_public", []).append(f"  int {arr}[4] = {{11, 22, 33, 44}};")
+        cls.setdefault("raw_public", []).append(f"#ifndef CPPPARSER\n  int {arr}[4] = {{11, 22, 33, 44}};\n#endif")
         cid = q.replace("::", "_")
         self.cx.append(f'extern "C" int vf_item_{cid}(void *p, int i) {{ return (({q} *)p)->{arr}[i & 3]; }}')
 
